@@ -9,6 +9,6 @@ for c in "$@"; do
   out=$(ASD_REPO="$S" ASD_EVIDENCE_DIR="$S/.evidence" /verif/check "$c" 2>&1)
   rc=$?
   echo "SEED $(basename $(dirname $PATCH))/$(basename $PATCH) check=$c rc=$rc"
-  echo "$out" | grep -E "^\s+.*\[C[0-9]+|FACT-EXTRACTION|Traceback|Error" | head -${MUT_LINES:-4} | cut -c1-330
+  echo "$out" | grep -E "^  .*\[C[0-9]+-|FACT-EXTRACTION|Traceback" | head -${MUT_LINES:-4} | cut -c1-330
 done
 rm -rf "$S"
